@@ -290,6 +290,9 @@ def rename(b, ren):
     return (op, pl, ks)
 
 
+FORMULA_CMDS = ('assert', 'define-fun', 'get-value')
+
+
 def random_script(rng, env, names):
     """Builds a script of serialisable commands through the API."""
     from pysmt.smtlib.script import SmtLibScript
@@ -438,6 +441,22 @@ def script_round_trip(rep, rng, names, j):
         return
     k1 = [cmd_key(c, {}) for c in s1.commands]
     k2 = [cmd_key(c, {}) for c in s2.commands]
+    # the formulas of the script built through the API against those read
+    # back from its text, command by command
+    f0 = [cmd_key(c, {}) for c in s0.commands if c.name in FORMULA_CMDS]
+    f1 = [cmd_key(c, {}) for c in s1.commands if c.name in FORMULA_CMDS]
+    rep.count('script_formula_commands', len(f0))
+    if f0 != f1:
+        for a, b_ in zip(f0 + [None], f1 + [None]):
+            if a != b_:
+                break
+        rep.violation(
+            'C09/script/formula-differs-from-built/%s/%s' % (
+                (a or b_)[0], detail),
+            'parse(serialize(S)) differs from the script S built through '
+            'the API (daggify=%r): %s vs %s\n%s' % (
+                dag, str(a)[:200], str(b_)[:200], t0[:300]))
+        return
     rep.count('scripts_compared')
     rep.count('script_commands', len(k1))
     if k1 != k2:
@@ -520,6 +539,9 @@ def run(rep):
         if rep.out_of_time() or (rep.only and rep.only != 'script'):
             break
         pool = plain if k % 3 else (names[:30] + plain[:5])
+        if k % 4 == 1:
+            # user symbols named like the DAG printer's let variables
+            pool = ['.def_%d' % i for i in range(4)] + plain[:3]
         script_round_trip(rep, rng, pool, k)
 
 
